@@ -4,13 +4,16 @@ import (
 	"fmt"
 	"sort"
 	"strings"
+	"sync"
 
 	"github.com/ipfs/go-cid"
 
+	"github.com/ucan-wg/go-ucan/pkg/container"
 	"github.com/ucan-wg/go-ucan/token/delegation"
 	"github.com/ucan-wg/go-ucan/token/invocation"
 
 	"verifharness/engine"
+	"verifharness/fixtures"
 )
 
 // C01 universe: 36 delegation shapes (iss, aud in P; sub in P+Undef) + MISSING.
@@ -20,10 +23,74 @@ type c01Elem struct{ iss, aud, sub int } // sub == 3 -> Undef
 
 func c01ElemOf(e int) c01Elem { return c01Elem{iss: e / 12, aud: (e / 4) % 3, sub: e % 4} }
 
-var c01Universe = struct {
-	toks   [36]*delegation.Token
-	loader *posLoader
-}{}
+// c01Univ is one realisation of the 36-shape universe: unsigned constructed tokens served
+// by a harness loader, or sealed tokens decoded again and served by a container.Reader.
+type c01Univ struct {
+	toks    [36]*delegation.Token
+	cids    [37]cid.Cid // cids[36] is a CID no loader knows
+	loader  delegation.Loader
+	sealInv bool // the invocation is sealed with the invoker's key and decoded before the check
+}
+
+var c01Universe = &c01Univ{}
+var c01SealedUniverse = &c01Univ{sealInv: true}
+var c01SealedOnce sync.Once
+
+// c01SealedInit seals every delegation shape with its issuer's key, writes all 36 into one CAR
+// container, reads the container back and uses the container.Reader itself as the loader.
+func c01SealedInit() {
+	c01Init()
+	c01SealedOnce.Do(func() {
+		u := c01SealedUniverse
+		w := container.NewWriter()
+		for e := 0; e < 36; e++ {
+			el := c01ElemOf(e)
+			data, c, err := c01Universe.toks[e].ToSealed(fixtures.ByAlg("ed25519")[el.iss].Priv)
+			if err != nil {
+				panic(err)
+			}
+			w.AddSealed(c, data)
+			u.cids[e] = c
+		}
+		u.cids[36] = cidPool[36]
+		car, err := w.ToCar()
+		if err != nil {
+			panic(err)
+		}
+		rd, err := container.FromCar(car)
+		if err != nil {
+			panic(err)
+		}
+		for e := 0; e < 36; e++ {
+			t, err := rd.GetDelegation(u.cids[e])
+			if err != nil {
+				panic(fmt.Sprintf("harness: container lost delegation %d: %v", e, err))
+			}
+			u.toks[e] = t
+		}
+		u.loader = rd
+	})
+}
+
+// mkInv builds the invocation of a state; in the sealed universe it is signed by the invoker and decoded again.
+func (u *c01Univ) mkInv(iss, sub int, prf []cid.Cid, opts []invocation.Option) *invocation.Token {
+	inv, err := invocation.New(prin(iss), prin(sub), "/a", prf, opts...)
+	if err != nil {
+		panic(err)
+	}
+	if !u.sealInv {
+		return inv
+	}
+	data, _, err := inv.ToSealed(fixtures.ByAlg("ed25519")[iss].Priv)
+	if err != nil {
+		panic(err)
+	}
+	dec, _, err := invocation.FromSealed(data)
+	if err != nil {
+		panic(err)
+	}
+	return dec
+}
 
 func c01Init() {
 	chainInit()
@@ -39,6 +106,9 @@ func c01Init() {
 		}
 		c01Universe.toks[e] = mustDlg(el.iss, el.aud, sub, "/a", nil)
 		m[cidPool[e]] = c01Universe.toks[e]
+	}
+	for e := 0; e <= 36; e++ {
+		c01Universe.cids[e] = cidPool[e]
 	}
 	c01Universe.loader = &posLoader{byCid: m}
 }
@@ -125,11 +195,11 @@ func popcount(x int) int {
 }
 
 // c01Eval executes one state on the real code for all four audience values.
-func c01Eval(ctx *engine.Ctx, dir string, iss, sub int, chain []int) {
+func c01Eval(ctx *engine.Ctx, u *c01Univ, dir string, iss, sub int, chain []int) {
 	mask := c01Ref(iss, sub, chain)
 	prf := make([]cid.Cid, len(chain))
 	for i, e := range chain {
-		prf[i] = cidPool[e]
+		prf[i] = u.cids[e]
 	}
 	ctx.States(1)
 	if popcount(mask) <= 1 {
@@ -141,11 +211,8 @@ func c01Eval(ctx *engine.Ctx, dir string, iss, sub int, chain []int) {
 		if aud >= 0 {
 			opts = append(opts, invocation.WithAudience(prin(aud)))
 		}
-		inv, err := invocation.New(prin(iss), prin(sub), "/a", prf, opts...)
-		if err != nil {
-			panic(err)
-		}
-		e1, e2 := bothVerdicts(inv, c01Universe.loader)
+		inv := u.mkInv(iss, sub, prf, opts)
+		e1, e2 := bothVerdicts(inv, u.loader)
 		ctx.Eval(2)
 		l1, l2 := errLabel(e1), errLabel(e2)
 		ctx.Outcome(l1)
@@ -175,7 +242,7 @@ func c01Eval(ctx *engine.Ctx, dir string, iss, sub int, chain []int) {
 				part := &posLoader{byCid: map[cid.Cid]*delegation.Token{}}
 				for k, e := range chain {
 					if k != drop && e != chain[drop] {
-						part.byCid[cidPool[e]] = c01Universe.toks[e]
+						part.byCid[u.cids[e]] = u.toks[e]
 					}
 				}
 				ctx.Eval(2)
@@ -183,14 +250,14 @@ func c01Eval(ctx *engine.Ctx, dir string, iss, sub int, chain []int) {
 				if err := inv.ExecutionAllowed(part); err == nil {
 					ctx.Failf(mk(), "stale-verdict/allowed-after-delegation-became-unavailable", "inv(iss=p%d,sub=p%d) with chain %v: allowed once, then still allowed by a loader that cannot load proof #%d", iss, sub, c01Describe(chain), drop)
 				}
-				fresh, _ := invocation.New(prin(iss), prin(sub), "/a", prf, opts...)
+				fresh := u.mkInv(iss, sub, prf, opts)
 				if err := fresh.ExecutionAllowed(part); err == nil {
 					ctx.Failf(mk(), "allowed-despite:missing", "fresh inv(iss=p%d,sub=p%d) allowed by a loader that cannot load proof #%d of %v", iss, sub, drop, c01Describe(chain))
-				} else if err := fresh.ExecutionAllowed(c01Universe.loader); err != nil && dir == "complete" {
+				} else if err := fresh.ExecutionAllowed(u.loader); err != nil && dir == "complete" {
 					ctx.Failf(mk(), "stale-verdict/denied-after-delegation-became-available", "inv(iss=p%d,sub=p%d) with chain %v: denied for a missing delegation, then still denied with a complete loader: %v", iss, sub, c01Describe(chain), err)
 				}
 			}
-			if err := inv.ExecutionAllowed(c01Universe.loader); err != nil && dir == "complete" {
+			if err := inv.ExecutionAllowed(u.loader); err != nil && dir == "complete" {
 				ctx.Failf(mk(), "verdict-not-repeatable", "inv(iss=p%d,sub=p%d) with chain %v: allowed, then denied on the next identical check: %v", iss, sub, c01Describe(chain), err)
 			}
 		}
@@ -220,12 +287,12 @@ func c01Describe(chain []int) string {
 	return "[" + strings.Join(parts, " ") + "]"
 }
 
-func c01Run(dir string) func(ctx *engine.Ctx, c any) {
+func c01Run(u *c01Univ, dir string) func(ctx *engine.Ctx, c any) {
 	return func(ctx *engine.Ctx, c any) {
 		cs := c.(*c01Case)
 		var rec func(chain []int, left int)
 		rec = func(chain []int, left int) {
-			c01Eval(ctx, dir, cs.Iss, cs.Sub, chain)
+			c01Eval(ctx, u, dir, cs.Iss, cs.Sub, chain)
 			if left == 0 {
 				return
 			}
@@ -283,18 +350,29 @@ func c01Sub(name, dir string, qn, tn int) *engine.Sub {
 			}
 		},
 		NewCase: func() any { return &c01Case{} },
-		Run:     c01Run(dir),
+		Run:     c01Run(c01Universe, dir),
 	}
+}
+
+// c01SealedSub is the same universe end to end: every delegation sealed by its issuer, carried in
+// a CAR container, decoded by container.FromCar and served by the container.Reader (a real
+// delegation.Loader); the invocation refers to the true CIDs, is sealed by the invoker and decoded.
+func c01SealedSub(name, dir string, qn, tn int) *engine.Sub {
+	sub := c01Sub(name, dir, qn, tn)
+	sub.Rule = "the principal-alignment universe end to end: the 36 delegation shapes are sealed with their issuers' keys, written to one CAR container, read back with container.FromCar and served by the container.Reader itself as delegation.Loader; proof lists hold the true CIDs (plus one CID the container does not know); the invocation is sealed with the invoker's key and decoded before ExecutionAllowed / ExecutionAllowedWithArgsHook run, for audience in {none,p0,p1,p2}; same reference and same-token histories as principal-alignment; non-trivial = states violating at most one rule kind"
+	sub.Setup = func(string) error { c01SealedInit(); return nil }
+	sub.Run = c01Run(c01SealedUniverse, dir)
+	return sub
 }
 
 func C01() *engine.Check {
 	return &engine.Check{
 		Property: "C01",
 		Level:    "model_checking",
-		Subs:     []*engine.Sub{c01Sub("principal-alignment", "sound", 3, 4)},
+		Subs:     []*engine.Sub{c01Sub("principal-alignment", "sound", 3, 4), c01SealedSub("sealed-tokens-through-container", "sound", 2, 3)},
 		Assumptions: []string{
 			"three distinct Ed25519 principals; DIDs are used by the validator only through ==",
-			"tokens are unsigned in-memory values served by a harness delegation.Loader (signature checking is C06's business)",
+			"principal-alignment: tokens are unsigned in-memory values served by a harness delegation.Loader (signature checking is C06's business); sealed-tokens-through-container: the same universe with every token signed, encoded, carried in a CAR container and decoded again",
 			"all commands equal, empty policies, no time bounds: only the principal rules can fire",
 		},
 	}
